@@ -24,6 +24,7 @@ type Env struct {
 	pkg     string
 	visited *MapIterV
 	qn      *int
+	assume  bool // the expression is being assumed (callee contract), not proved
 }
 
 func (env *Env) child() *Env {
@@ -246,6 +247,9 @@ func (st *State) elab(env *Env, e *Expr) (SVal, types.Type) {
 	case "call":
 		return st.elabCall(env, e)
 	case "forall", "exists":
+		if e.Kind == "exists" && len(e.Vars) == 1 && e.Vars[0].Type == "clock" {
+			return st.elabClockExists(env, e), tBool
+		}
 		n := env.child()
 		var vars []*Term
 		for _, qv := range e.Vars {
@@ -668,4 +672,25 @@ func (st *State) loadModules(names []string) {
 			st.assume(st.elabBool(env, ax.E))
 		}
 	}
+}
+
+// elabClockExists: "exists now clock :: P(now)" ranges over the instants at which the unit read the
+// clock. Proving: a finite disjunction over the clock readings of this path. Assuming (a callee's
+// contract): a fresh instant between the clock before and after the call.
+func (st *State) elabClockExists(env *Env, e *Expr) *Term {
+	name := e.Vars[0].Name
+	if env.assume {
+		n := env.child()
+		t := st.clockNow()
+		n.vars[name] = envVar{t, tInt}
+		return st.elabBool(n, e.Args[0])
+	}
+	reads, _ := st.ghostObj["clockreads"].([]*Term)
+	var ds []*Term
+	for _, t := range reads {
+		n := env.child()
+		n.vars[name] = envVar{t, tInt}
+		ds = append(ds, st.elabBool(n, e.Args[0]))
+	}
+	return Or(ds...)
 }
